@@ -263,7 +263,26 @@ func (r *run) snapshot() string {
 		}
 		return strings.Join(x, ",")
 	}
-	return fmt.Sprintf("sent=%s sess=%s pool=%d/%d", j(sent), j(sl), free, alloc)
+	// the pool's own view: what it records for each live session, entries that belong to no live session, the free list in order
+	avail, table := r.s.PoolViewForVerif()
+	oct := func(ip net.IP) string {
+		if v4 := ip.To4(); v4 != nil {
+			return strconv.Itoa(int(v4[3]))
+		}
+		return "?"
+	}
+	var held, fl []string
+	owned := 0
+	for _, s := range ss {
+		if ip, ok := table[s.SessionID]; ok {
+			held = append(held, fmt.Sprintf("%d:%s", s.ID, oct(ip)))
+			owned++
+		}
+	}
+	for _, ip := range avail {
+		fl = append(fl, oct(ip))
+	}
+	return fmt.Sprintf("sent=%s sess=%s pool=%d/%d held=%s orph=%d free=%s", j(sent), j(sl), free, alloc, j(held), len(table)-owned, j(fl))
 }
 
 func macOf(tok string) net.HardwareAddr {
